@@ -227,6 +227,23 @@ def _install_wrappers():
         _wrap(_time, n, "Clock", "time." + n)
     _wrap(os, "getenv", "Environ", "os.getenv")
     _wrap(os, "urandom", "Environ", "os.urandom")
+    # the environment seen through the file system: home / working directory, ~ and $VAR expansion
+    _wrap(os, "getcwd", "Environ", "os.getcwd")
+    _wrap(os.path, "expanduser", "Environ", "os.path.expanduser")
+    _wrap(os.path, "expandvars", "Environ", "os.path.expandvars")
+    try:
+        import pathlib
+        _wrap(pathlib.Path, "expanduser", "Environ", "Path.expanduser")
+        for n in ("home", "cwd"):
+            def mk(orig, n):
+                def w(*a, **k):
+                    _record("Environ", "Path." + n)
+                    return orig()
+                w._c14_wrapped = True
+                return w
+            setattr(pathlib.Path, n, staticmethod(mk(getattr(pathlib.Path, n), n)))
+    except Exception:
+        pass
     try:
         E = type(os.environ)
         for n in ("get", "__getitem__", "__contains__"):
@@ -291,9 +308,13 @@ KINDS = ["positive", "complex", "density"]
 OBS = ["SigmaX", "SigmaY", "SigmaZ", "Neighbour", "NeighbourPBC", "SWAP", "Sum", "Prod", "Neg"]
 OP_WEIGHTS = {"reseed": 1.0, "reinit": 0.7, "sample": 3.0, "obs_sample": 1.5, "statistics": 2.0, "system_statistics": 1.0,
               "fit": 2.5, "evaluate": 2.5, "metric": 2.0, "rotate": 1.8, "save": 1.0, "load": 0.7, "autoload": 0.5,
-              "gradient": 2.0, "stats_from_samples": 1.0, "load_data": 0.5, "poke": 0.6}
+              "gradient": 2.0, "stats_from_samples": 1.0, "load_data": 0.5, "poke": 0.8, "callback_hook": 1.0}
 READ_ONLY_OPS = {"sample", "obs_sample", "statistics", "system_statistics", "evaluate", "metric", "rotate", "save", "gradient",
-                 "stats_from_samples", "load_data"}
+                 "stats_from_samples", "load_data", "callback_hook"}
+POKE_VALUES = ["nan", "inf", "-inf", "75.0", "-60.0", "1e6", "1e-300", "0.0", "1e300", "-1e300", "1e12", "-1e9"]
+HOOK_KINDS = ["metric", "observable", "logger", "saver", "early", "list"]
+FIT_KNOWN = {"self", "data", "epochs", "pos_batch_size", "neg_batch_size", "k", "lr", "input_bases", "progbar", "starting_epoch",
+             "time", "callbacks", "optimizer", "optimizer_args", "scheduler", "scheduler_args", "kwargs"}
 SEED_FLAGS = [{"cpu": True, "gpu": False}, {"cpu": True, "gpu": True}, {}, {"cpu": True}, {"gpu": True}]
 RNG_OPS = {"sample", "obs_sample", "statistics", "system_statistics", "fit"}
 
@@ -334,7 +355,7 @@ def gen_op(rng, kind, nv, name, thorough):
         op["net"] = str(rng.choice(["rbm_am", "rbm_ph"]))
         op["param"] = int(rng.integers(0, 5))
         op["index"] = int(rng.integers(0, 64))
-        op["value"] = str(rng.choice(["nan", "inf", "-inf", "75.0", "-60.0", "1e6", "1e-300", "0.0"]))
+        op["value"] = str(rng.choice(POKE_VALUES))
     elif name == "stats_from_samples":
         op["obs"] = [str(x) for x in rng.choice(OBS, size=int(rng.integers(1, 4)), replace=False)]
         op["A"] = sorted(int(a) for a in rng.choice(nv, size=int(rng.integers(1, nv)), replace=False)) if nv > 1 else [0]
@@ -401,6 +422,10 @@ def gen_op(rng, kind, nv, name, thorough):
         op["k"] = int(rng.integers(1, 4))
     elif name == "save":
         op["metadata"] = bool(rng.random() < 0.5)
+    elif name == "callback_hook":
+        op["which"] = str(rng.choice(HOOK_KINDS))
+        op["epoch"] = int(rng.integers(1, 4))
+        op["samples"] = _bits(rng, int(rng.integers(4, 9)), nv)
     return op
 
 
@@ -456,6 +481,25 @@ def make_obs(name, A):
     return -SigmaX()
 
 
+def unknown_numeric_options(fn, known, value):
+    """keyword arguments for every parameter of `fn` that this harness does not know and whose default is None or a number:
+    an option added to the library is switched on with `value` (the same regime as fit(time=<number>)); {} on the
+    unchanged tree."""
+    import inspect
+    out = {}
+    try:
+        ps = inspect.signature(fn).parameters
+    except (TypeError, ValueError):
+        return out
+    for name, p_ in ps.items():
+        if name in known or p_.kind in (p_.VAR_POSITIONAL, p_.VAR_KEYWORD):
+            continue
+        d = p_.default
+        if d is None or (isinstance(d, (int, float)) and not isinstance(d, bool)):
+            out[name] = value
+    return out
+
+
 class Runner:
     """executes one history on a fresh state; collects outputs, parameter digests, hits per operation."""
 
@@ -469,6 +513,7 @@ class Runner:
         self.nrng = 0
         self.rng_states = []        # per op: digest of torch's CPU generator state after the op
         self.raised = []            # (index, op, exception type) of operations that raised
+        self.cb_changes = []        # (index, hook) callbacks' hooks during fit between which the parameter bytes changed
 
     def perturb_foreign(self, i):
         """put numpy's and Python's global generators into a run-specific state and consume a run-specific amount."""
@@ -478,6 +523,12 @@ class Runner:
             import torch
             torch.manual_seed(1000003 * (self.perturb + 1) + 17)
             torch.rand(1 + self.perturb % 3)
+        if i == 0:
+            # the user's home / configuration directories differ between the runs (both exist and are empty)
+            for key in ("HOME", "XDG_CONFIG_HOME", "USERPROFILE"):
+                d = os.path.join(self.workdir, "env_%d_%s" % (self.perturb, key.lower()))
+                os.makedirs(d, exist_ok=True)
+                os.environ[key] = d
         for key in sorted(_STATE.get("env_keys", ())):          # environment variables the library was seen reading
             if self.perturb == 0:
                 os.environ.pop(key, None)
@@ -515,10 +566,16 @@ class Runner:
         os.makedirs(self.workdir, exist_ok=True)
         _STATE["clock_skew"] = 100.0 if self.perturb else 0.0
         _STATE["clock_calls"] = 0
+        saved_env = {k: os.environ.get(k) for k in ("HOME", "XDG_CONFIG_HOME", "USERPROFILE")}
         try:
             return self._run()
         finally:
             _STATE["clock_skew"] = 0.0
+            for k, v in saved_env.items():
+                if v is None:
+                    os.environ.pop(k, None)
+                else:
+                    os.environ[k] = v
             for key in _STATE.get("env_keys", ()):
                 os.environ.pop(key, None)
 
@@ -684,6 +741,8 @@ class Runner:
             return [type(obs[0]).statistics_from_samples, type(obs[0]).apply], lambda: obs[0].statistics_from_samples(st, samples)
         if name == "load_data":
             return self.load_data(op, i)
+        if name == "callback_hook":
+            return self.callback_hook(op, i)
         if name == "save":
             path = os.path.join(self.workdir, "state_%d.pt" % i)
 
@@ -703,6 +762,57 @@ class Runner:
                 return None
             return [T.autoload], do_autoload
         raise ValueError("unknown op " + name)
+
+    def callback_hook(self, op, i):
+        """the hooks of the library's evaluation / logging / saving callbacks called as what they are: read-only operations
+        on the state (fit calls them exactly like this)."""
+        import io, contextlib, torch
+        from qucumber import callbacks as C
+        from qucumber.observables import SigmaZ, SigmaX
+        import qucumber.utils.training_statistics as ts
+        st = self.st
+        data = torch.tensor(op["samples"], dtype=torch.double)
+        ep = op.get("epoch", 1)
+        which = op["which"]
+        me = C.MetricEvaluator(1, {"NLL": ts.NLL}, verbose=bool(ep % 2), samples=data, space=st.generate_hilbert_space())
+        oe = C.ObservableEvaluator(1, [SigmaZ(), SigmaX()], verbose=bool(ep % 2), num_samples=6, burn_in=2, steps=1)
+        if which == "metric":
+            cbs = [me]
+        elif which == "observable":
+            cbs = [oe]
+        elif which == "logger":
+            lines = []
+            cbs = [C.Logger(1, logger_fn=lines.append, note="c14")]
+        elif which == "saver":
+            cbs = [C.ModelSaver(1, os.path.join(self.workdir, "hook_%d" % i), "h{}.pt", save_initial=True, metadata={"i": i})]
+        elif which == "early":
+            cbs = [me, C.EarlyStopping(1, 1e-12, 1, me, "NLL", criterion="absolute")]
+        else:
+            cbs = [C.CallbackList([me, oe, C.Timer(verbose=False)])]
+        entries = []
+        for c in cbs:
+            for hook in ("on_train_start", "on_epoch_start", "on_batch_start", "on_batch_end", "on_epoch_end", "on_train_end"):
+                entries.append(getattr(type(c), hook))
+
+        def call():
+            try:
+                with contextlib.redirect_stdout(io.StringIO()):
+                    for c in cbs:
+                        c.on_train_start(st)
+                    for e in range(1, ep + 1):
+                        for c in cbs:
+                            c.on_epoch_start(st, e)
+                            c.on_batch_start(st, e, 0)
+                            c.on_batch_end(st, e, 0)
+                        for c in cbs:
+                            c.on_epoch_end(st, e)
+                    for c in cbs:
+                        c.on_train_end(st)
+            finally:
+                st.stop_training = False
+            return [["metric", [[e, v] for e, v in me.past_values]],
+                    ["obs", [[e, v] for e, v in oe.past_values]]]
+        return entries, call
 
     def load_data(self, op, i):
         """qucumber.utils.data loaders on files written by the harness (numpy only, no global RNG)."""
@@ -812,6 +922,24 @@ class Runner:
         if "lambda" in extra:
             cbs.append(LambdaCallback(on_epoch_end=lambda s_, ep: lam.append(["epoch", ep, param_bytes(s_)]),
                                       on_batch_end=lambda s_, ep, b: lam.append(["batch", ep, b])))
+        numeric_time = isinstance(op["time"], (int, float)) and not isinstance(op["time"], bool)
+        if numeric_time:
+            # a Timer attached explicitly as well; options of Timer / fit this harness does not know (None / numeric default)
+            # are switched on with the same number -- nothing may depend on the wall clock
+            from qucumber.callbacks import Timer
+            extra_t = unknown_numeric_options(Timer.__init__, {"self", "verbose"}, op["time"])
+            try:
+                cbs.append(Timer(verbose=False, **extra_t))
+            except Exception:
+                cbs.append(Timer(verbose=False))
+            kw.update(unknown_numeric_options(type(st).fit, FIT_KNOWN, op["time"]))
+        # the hooks of all callbacks sandwiched between two probes: no callback may change a parameter
+        pre, post = [], []
+        hooks = ("on_train_start", "on_epoch_start", "on_batch_start", "on_batch_end", "on_epoch_end", "on_train_end")
+
+        def probe(store, hook):
+            return lambda s_, *a: store.append((hook, param_bytes(s_)))
+        cbs = [LambdaCallback(**{h_: probe(pre, h_) for h_ in hooks})] + cbs + [LambdaCallback(**{h_: probe(post, h_) for h_ in hooks})]
         kw["callbacks"] = cbs
         import io, contextlib
         try:
@@ -819,6 +947,10 @@ class Runner:
                 st.fit(data, **kw)
         finally:
             st.stop_training = False        # EarlyStopping may have set it; the next fit of the history starts afresh
+        for (h1, d1), (h2, d2) in zip(pre, post):
+            if h1 == h2 and d1 != d2:
+                self.cb_changes.append((len(self.outputs) - 1, h1))
+                break
         out = []
         for kind, e in evs:
             out.append([kind, [[ep, vals] for ep, vals in e.past_values]])
@@ -928,6 +1060,12 @@ def check_history(ctx, h, subprocess_too=False, count=True, other_seed=True):
                         dict(case, operation="%d:%s%s" % (i, opn, (":" + what) if what else "")), "parameter bytes changed")
         if r.ro_changes:
             break
+    for r in (a, b):
+        for (i, hook) in r.cb_changes[:1]:
+            ctx.require("callbacks (evaluators, savers, loggers, timers) leave every parameter unchanged while fit runs their hooks", False,
+                        dict(case, operation="%d:fit" % i, hook=hook), "parameter bytes differ before / after the callbacks' " + hook)
+        if r.cb_changes:
+            break
     # ---- hits are among the predicted atoms
     if model is not None:
         for r in (a,):
@@ -1035,13 +1173,28 @@ def fixed_histories():
     stat = {"op": "statistics", "obs": ["SigmaX"], "A": [0], "k": 1, "n": 6, "chains": 0, "burn_in": 2, "steps": 1}
     ev = {"op": "evaluate", "what": "probability", "num": 1}
     out = []
-    for kind in KINDS:
-        pokes = [{"op": "poke", "net": "rbm_am", "param": 0, "index": 1, "value": v} for v in ("75.0", "nan")]
+    grad = {"op": "gradient", "what": "batch", "samples": data[:4], "neg": data[4:], "bases": bases[:4], "k": 1}
+    met = {"op": "metric", "what": "NLL", "target_seed": 1, "bases": ["XZZ", "ZZY"], "samples": data[:4], "sample_bases": bases[:4]}
+    rot = {"op": "rotate", "what": "inner_prod_or_probs", "target_seed": 2, "basis": ["X", "Z", "Y"], "states": data[:3]}
+    sysst = {"op": "system_statistics", "obs": ["SigmaZ", "SWAP"], "A": [0], "k": 1, "n": 6, "chains": 3, "burn_in": 2, "steps": 1}
+    fit_cb = dict(fit, time=7, epochs=2, callbacks=["both"], extra_callbacks=["early", "logger", "saver"], lr=0.05)
+
+    def hook(which, epoch=1):
+        return {"op": "callback_hook", "which": which, "epoch": epoch, "samples": data[:6]}
+    for j, kind in enumerate(KINDS):
+        # degenerate parameter entries written by the harness: moderately large, NaN, beyond every sane bound
+        pk = [{"op": "poke", "net": ("rbm_am", "rbm_ph", "rbm_am")[(j + q) % 3], "param": q, "index": 1 + q, "value": v}
+              for q, v in enumerate(("75.0", "nan", "1e300", "-1e12"))]
+        # history 1: clock-independent training (numeric time, explicit Timer with every unknown option switched on), then
+        # every class of read-only operation on ordinary parameters, after a large entry and after a NaN entry
         out.append({"kind": kind, "nv": 3, "nh": 2, "na": 2, "seed": 2 ** 31 + 77, "seed_flags": {"cpu": True, "gpu": True},
-                    "ops": [fit, smp, pokes[0], smp, stat, ev, {"op": "save", "metadata": True},
-                            {"op": "gradient", "what": "batch", "samples": data[:4], "neg": data[4:], "bases": bases[:4], "k": 1},
-                            pokes[1], {"op": "save", "metadata": False}, ev, smp, stat,
-                            {"op": "metric", "what": "NLL", "target_seed": 1, "bases": ["XZZ", "ZZY"], "samples": data[:4], "sample_bases": bases[:4]}]})
+                    "ops": [fit, smp, hook("metric"), hook("list", 2), pk[0], smp, stat, ev, {"op": "save", "metadata": True}, grad,
+                            pk[1], {"op": "save", "metadata": False}, ev, smp, stat, met, hook("metric"), hook("early", 2), rot]})
+        # history 2: huge entries (beyond any clamp), then sampling / statistics / hooks / gradients; training with the
+        # evaluator, stopper, logger and saver callbacks sandwiched between parameter probes, before and after a NaN entry
+        out.append({"kind": kind, "nv": 3, "nh": 2, "na": 2, "seed": 977 + j, "seed_flags": {},
+                    "ops": [pk[2], smp, stat, hook("observable"), pk[3], smp, sysst, grad, {"op": "save", "metadata": True}, ev,
+                            hook("saver"), hook("logger"), fit_cb, smp, pk[1], hook("list"), fit_cb, met]})
     return out
 
 
@@ -1094,21 +1247,29 @@ def run(ctx):
     import torch
     rng = ctx.rng
     t0 = time.time()
-    budget = 300.0 if ctx.thorough else 32.0
+    budget = 300.0 if ctx.thorough else 34.0
     max_hist = 500 if ctx.thorough else 60
+    min_hist = 12 if ctx.thorough else 6          # the time budget may cut the random stream, but never below this
     n_sub = 6 if ctx.thorough else 2
-    # ---- fixed cases first: seed pairs from every regime, numeric fit(time=...), degenerate parameter values
+    # ---- fixed cases first, the most discriminating ones at the very start (no time budget applies to them): histories with
+    # numeric fit(time=...), explicit Timer, degenerate parameter values followed by every class of read-only operation and by
+    # the callbacks' hooks; then seed pairs from every regime and re-seeding
     pairs = seed_pairs(rng)
+    fixed = fixed_histories()
+    for h in fixed:
+        check_history(ctx, h)
+        ctx.count("fixed_history")
+    ctx.extra["fixed_histories_s"] = round(time.time() - t0, 1)
     for j, (s1, s2) in enumerate(pairs * (2 if ctx.thorough else 1)):
         kind = KINDS[j % 3]
         check_seed_pair(ctx, kind, 3 if kind == "density" else 2 + j % 3, 1 + j % 4, s1, s2)
     check_reseed_restarts(ctx, pairs[0][0])
     check_reseed_restarts(ctx, pairs[0][1])
-    for h in fixed_histories():
-        check_history(ctx, h)
+    ctx.extra["fixed_cases_s"] = round(time.time() - t0, 1)
+    t0r = time.time()
     weights = weights_for(viol) if viol else None
     i = 0
-    while i < max_hist and time.time() - t0 < budget:
+    while i < max_hist and (time.time() - t0r < budget or i < min_hist):
         kind = KINDS[i % 3] if i < 6 else None
         h = gen_history(rng, ctx.thorough, weights, kind)
         check_history(ctx, h, subprocess_too=(i < n_sub))
